@@ -1711,3 +1711,15 @@ package trzsz
 //@ func trzszTransfer.sendCompressFlag
 //@   ensures [C08] r1 == nil ==> (forall f int {fpos[f]} :: fpos[f] == old(fpos)[f])
 //@ end
+
+//@ # C03: the input pump hands every non-empty read to the transfer - the very bytes read, as one chunk -
+//@ # before it looks at the error that came with the read; it ends only with nothing left in hand
+//@ func wrapTransferInput$1
+//@   ghostvar pending bool = false
+//@   after io.Reader.Read set pending = r0 > 0
+//@   after trzszTransfer.addReceivedData set pending = false
+//@   before trzszTransfer.addReceivedData assert [C03] pending && same(p0, buffer[0:n]) && n == result_of("io.Reader.Read", 0, 0) && p1 == tunnel
+//@   ensures [C03] !pending
+//@   loop 1
+//@     invariant [C03] !pending
+//@ end
